@@ -7,9 +7,23 @@
 // frontier / root checkpoint); for each distinct state the state is rebuilt with Replay on a
 // fresh double and a FRESH tool instance is started on it 2–4 times in a row (1–3 starts without
 // traffic, some with a Send on an idle feeder that is then stopped, then one start that replays
-// the rest of the stream); the requests of those restarted runs — including the start-up
-// recovery's own DEL/ZREM requests and the coordinator's frontier HSET … journal DELs — are crash
-// points again.
+// the rest of the stream; about one chain in four is configured with another replay mode than
+// the namespace was last used in, so the start-up bookkeeping switches the namespace in place or
+// migrates it across recovery families); the requests of those restarted runs — including the
+// start-up recovery's own DEL/ZREM requests, the migration's requests and the coordinator's
+// frontier HSET … journal DELs — are crash points again.
+//
+// Oracle (bisweep.Judge), per DESIGN C14: resume offset R of every start ∈ {unit ends} ∪ {stream
+// start}; every unit ending at or before R is committed (complete target transaction: all business
+// commands of the unit + its record [+ index]); sync mode: R = end of the last committed unit and
+// no unit is committed twice; pipeline/parallel: repeats allowed, none skipped, in order; a unit's
+// business commands and its record only ever appear in one target transaction; a stored frontier
+// (seq f, offset o) implies every unit ≤ o and every sequence number ≤ f committed at that moment;
+// successive starts never return a smaller R than a start that completed before them — or than the
+// start that was interrupted inside its own recovery requests was about to return — and the
+// stored frontier / latest never decrease; a start that fails for good on a state the tool itself
+// produced ("bisync journal gap") is reported under its own signature.  Pure history check:
+// checkpoint.RebuildBisyncFrontier on all subsets of ≤10 surviving journal records.
 //
 // How the tool is driven.  Every start goes through syncer.VerifNewOutput (build tag verif) =
 // NewSyncer(cfg).newOutput(): the tool's real start-up bookkeeping — run-id lookup on a source
@@ -42,14 +56,15 @@ func main() {
 	run := harness.New("C14", "fault_enumeration",
 		"base run = PRNG(seed,i) → (mode, window, generated stream with transactions/SELECTs/PINGs, feeding plan with idle gaps around the 100 ms frontier flush, EXEC reply delay, "+
 			"optional unrelated key in another target DB) + 3 fixed directed cases; crash points = EVERY prefix of the requests the target executed during the incremental phase, grouped by the "+
-			"bookkeeping state they leave (bisync keys incl. journal/index/frontier; one chain of 2–4 fresh tool starts per distinct state); restarted runs: every state inside start-up "+
-			"bookkeeping/recovery and between starts exhaustively, traffic-phase states by PRNG; exhaustive per observed request sequence, not over schedules; RebuildBisyncFrontier on all "+
-			"subsets of ≤10 surviving journal records (observed states + synthetic windows); distinct = (mode[, other-db], depth, where the prefix falls: in-unit / between-units / "+
+			"bookkeeping state they leave (bisync keys incl. journal/index/frontier; one chain of 2–4 fresh tool starts per distinct state, 1 in 4 chains in another replay mode = namespace "+
+			"switch/migration); restarted runs: every state inside start-up bookkeeping/recovery/migration and between starts exhaustively, traffic-phase states by PRNG; exhaustive per observed request sequence, not over schedules; RebuildBisyncFrontier on all "+
+			"subsets of ≤10 surviving journal records (observed states + synthetic windows); distinct = (mode[, other-db], modes of the restarted starts, depth, where the prefix falls: in-unit / between-units / "+
 			"between-frontier-save-and-journal-delete / inside-recovery[/journal-cleanup] / idle / after-stop, whether the resumed run repeated units)")
 	run.Watchdog(110 * time.Minute)
 	run.Assume("target state after a crash = effects of a prefix of the requests the double executed; an open MULTI block is discarded (fakeredis); business writes are logged, not executed")
 	run.Assume("a restarted instance runs syncer.VerifNewOutput (= syncer.newOutput) against a source double reporting a fixed replication id, then StartPoint, then Send from the returned offset")
 	run.Assume("standalone target: one slot tag, one lane; unit i of the generator = i-th stand-alone write or non-empty MULTI/EXEC group (SELECT/PING/administrative commands/empty transactions form no unit)")
+	run.Assume("mode switches across recovery families are only provoked from states that hold a migration seed (latest record / frontier / journal from seq 1); the refusal to migrate an unseeded namespace is not judged")
 	run.Assume("cluster target (parallel lanes, out-of-order completion) is not exercised: bisweep.Target is the plug-in point")
 	run.MinDistinct(6)
 
